@@ -34,3 +34,13 @@ Definition rule2_case_ok (c : rule2_case) : bool :=
   forallb2 ptclose (vectorize_points (map test_pt rc) (map test_pt re) (map test_pt rv)) tp &&
   forallb2 ptclose (vectorize_points (map trial_pt rc) (map trial_pt re) (map trial_pt rv)) rp &&
   forallb2 (qclose (1 # 100000000000000)) (vectorize_weights (map weight_of rc) (map weight_of re) (map weight_of rv)) w.
+
+(* Space.get_elements_by_color(): (color_map with -1 as None, sorted_indices, indexptr) *)
+From BV Require Import Grid.PairCoverage.
+Definition color_case := (list (option nat) * list nat * list nat)%type.
+Fixpoint prefix_sums (acc : nat) (l : list nat) : list nat :=
+  match l with [] => [acc] | h :: r => acc :: prefix_sums (acc + h) r end.
+Definition color_case_ok (c : color_case) : bool :=
+  let '(cm, sorted, indexptr) := c in
+  leqb Nat.eqb (sorted_indices cm) sorted &&
+  leqb Nat.eqb (prefix_sums 0 (map (@length nat) (elements_by_color cm))) indexptr.
